@@ -523,6 +523,66 @@ def _frame_times(a, T=None):
 
 
 _TD_CACHE = {}
+_WF_CACHE = {}
+WF_TOL = 1e-9
+
+
+def _wf_chord_model(dist, tr, key_change_prob, chord_change_prob):
+    """"Their own hidden Markov model" presupposes that the tables ARE distributions with the documented meaning of the
+    parameters.  Returns None or a reason string.  Memoised per parameter tuple (the tables are pure functions of it)."""
+    import numpy as np
+    k = (dist.tobytes(), key_change_prob, chord_change_prob)
+    if k in _WF_CACHE:
+        return _WF_CACHE[k]
+    why = None
+    nk, nc = dist.shape
+    if not (np.all(dist >= 0) and np.all(dist <= 1)):
+        why = 'key-chord prior has entries outside [0, 1]'
+    elif np.abs(dist.sum(axis=1) - 1).max() > WF_TOL:
+        why = 'key-chord prior of some key does not sum to 1'
+    elif tr.shape != (nk * nc, nk * nc):
+        why = 'transition table has the wrong shape'
+    elif not (np.all(tr >= 0) and np.all(tr <= 1)):
+        why = 'chord transition table has entries outside [0, 1]'
+    elif np.abs(tr.sum(axis=1) - 1).max() > WF_TOL:
+        why = 'some row of the chord transition table does not sum to 1 (max deviation %.3g)' % np.abs(tr.sum(axis=1) - 1).max()
+    else:
+        # documented meaning of the two change probabilities: P(key changes) = key_change_prob,
+        # P(chord stays | key stays) = 1 - chord_change_prob  (so it decreases when chord_change_prob grows)
+        same_key = np.array([tr[i, (i // nc) * nc:(i // nc + 1) * nc].sum() for i in range(nk * nc)])
+        stay = np.diag(tr) / same_key
+        if np.abs((1 - same_key) - key_change_prob).max() > WF_TOL:
+            why = 'probability of leaving the key differs from key_change_prob'
+        elif np.abs(stay - (1 - chord_change_prob)).max() > WF_TOL:
+            why = 'probability of keeping the chord within a key differs from 1 - chord_change_prob'
+    _WF_CACHE[k] = why
+    return why
+
+
+def _wf_melody_transition(mat, rest_prob):
+    """Rows of _melody_transition_distribution: entries in [0, 1]; the EVENT part of each row (everything but the documented
+    "non-event" of continuing a rest / sustaining the sounding note, which carries weight 1 on top) sums to 1; rest after a
+    note has probability rest_prob.  (The full rows of the unchanged code sum to 2, not 1, because of the non-events.)"""
+    import numpy as np
+    n = (mat.shape[0] - 1) // 2
+    if mat.shape != (2 * n + 1, 2 * n + 1):
+        return 'melody transition table has the wrong shape'
+    if not (np.all(mat >= 0) and np.all(mat <= 1)):
+        return 'melody transition table has entries outside [0, 1]'
+    ev = mat.copy()
+    non_event = [mat[0, 0]]
+    ev[0, 0] = 0
+    for q in range(n):
+        non_event += [mat[1 + q, 1 + n + q], mat[1 + n + q, 1 + n + q]]
+        ev[1 + q, 1 + n + q] = 0
+        ev[1 + n + q, 1 + n + q] = 0
+    if np.abs(ev.sum(axis=1) - 1).max() > WF_TOL:
+        return 'event part of some row of the melody transition table does not sum to 1'
+    if np.abs(np.array(non_event) - 1).max() > WF_TOL:
+        return 'a non-event (continuing a rest / sustaining) does not carry weight 1'
+    if np.abs(mat[1:, 0] - rest_prob).max() > WF_TOL:
+        return 'probability of a rest after a note differs from rest_prob'
+    return None
 
 
 class _memo_transition(object):
@@ -764,6 +824,7 @@ def _impl_chords_e2e(a):
         # the key/chord path the RETURNED annotations denote (keys from the key signatures when they were requested,
         # otherwise from the Viterbi result, whose chords the oracle checks against the annotations)
         times = _frame_times(a)
+        r['wf'] = doc['wf'] if doc is not None else 'documented model could not be built'
         if doc is not None and len(times) == doc['frame_ll'].shape[0]:
             figs = [_in_force(anns, t) for t in times]
             ks = [_in_force(keys, t) for t in times] if a['addkeys'] else [s // nc for s in path]
@@ -796,7 +857,8 @@ def _documented_chord_model(a, kw, shift):
             dist = ci._key_chord_distribution(chord_pitch_out_of_key_prob=par('chord_pitch_out_of_key_prob'))
             tr = ci._key_chord_transition_distribution(dist, key_change_prob=par('key_change_prob'),
                                                        chord_change_prob=par('chord_change_prob'))
-            return {'frame_ll': fl, 'log_kc': np.log(dist), 'log_trans': np.log(tr)}
+            return {'frame_ll': fl, 'log_kc': np.log(dist), 'log_trans': np.log(tr),
+                    'wf': _wf_chord_model(dist, tr, par('key_change_prob'), par('chord_change_prob'))}
     except Exception:
         return None
 
@@ -830,6 +892,8 @@ def _documented_melody_model(a, shift):
                 _MTD_CACHE[ck] = mi._melody_transition_distribution(
                     rest_prob=par('rest_prob'), interval_prob_fn=lambda d: 1 / (1 + (d / scale) ** 2))
             dist = _MTD_CACHE[ck]
+            if ('wf',) + ck not in _MTD_CACHE:
+                _MTD_CACHE[('wf',) + ck] = _wf_melody_transition(dist, par('rest_prob'))
             n_midi = constants.MAX_MIDI_PITCH - constants.MIN_MIDI_PITCH + 1
             idx = ([0] + [q - constants.MIN_MIDI_PITCH + 1 for q in pitches] +
                    [n_midi + q - constants.MIN_MIDI_PITCH + 1 for q in pitches])
@@ -840,7 +904,7 @@ def _documented_melody_model(a, shift):
                 instantaneous_non_empty_rest_prob=par('instantaneous_non_empty_rest_prob'),
                 instantaneous_missing_pitch_prob=par('instantaneous_missing_pitch_prob'))
         return {'pitches': [int(q) for q in pitches], 'times': [_tk(t) for t in bounds[:-1]], 'frame_ll': frame_ll,
-                'log_trans': log_trans}
+                'log_trans': log_trans, 'wf': _MTD_CACHE[('wf',) + ck]}
     except Exception:
         return None
 
@@ -913,6 +977,7 @@ def _impl_melody_e2e(a):
         # the requested model, rebuilt outside infer_melody_for_sequence, and the score under it of the path the returned
         # notes denote
         doc = _documented_melody_model(a, shift)
+        r['wf'] = doc['wf'] if doc is not None else None
         if doc is not None and not (np.isnan(doc['frame_ll']).any() or np.isnan(doc['log_trans']).any()):
             dpath = _path_of_notes([[s0, e0, q + shift] for s0, e0, q in notes], doc['times'], doc['pitches'])
             if dpath is not None:
@@ -1187,6 +1252,9 @@ def oracle(case, io):
                 return {'kind': 'chords-e2e-frame-count', 'frames': r['frames'], 'expected': len(times)}
             if not r['attained'] == r['best']:
                 return {'kind': 'chords-e2e-path-not-maximum-likelihood', 'attained': r['attained'], 'best': r['best']}
+            if r.get('wf'):
+                return {'kind': 'transition-distribution-not-stochastic', 'model': 'chords', 'why': r['wf'],
+                        'params': a['params']}
             if 'best_doc' not in r:
                 return {'kind': 'chords-e2e-documented-model-not-evaluable'}
             if not r['attained_doc'] >= r['best_doc'] - 1e-9 * max(1.0, abs(r['best_doc'])):
@@ -1219,6 +1287,9 @@ def oracle(case, io):
                 if (p, s) not in onsets:
                     return {'kind': 'melody-e2e-note-not-at-real-onset', 'note': [s, e, p],
                             'at_sequence_end': any(x[0] == p and x[1] == a['total'] for x in mel)}
+            if r.get('wf'):
+                return {'kind': 'transition-distribution-not-stochastic', 'model': 'melody', 'why': r['wf'],
+                        'params': a['params']}
             if r['frames']:
                 if 'best_doc' not in r:
                     return {'kind': 'melody-e2e-documented-model-not-evaluable'}
